@@ -427,6 +427,39 @@ func replayNative(pkg string, files []string, race bool) (map[string]replayOutco
 		}
 	}
 	if len(outcomes) != len(files) {
+		// the test binary ended early: a fatal error of the Go runtime (stack overflow, concurrent map writes)
+		// ends the process whatever recover() is in place. The files without a result are run one by one; a run
+		// that ends in such a fatal error is that file's outcome.
+		for _, f := range files {
+			if _, ok := outcomes[f]; ok {
+				continue
+			}
+			one := filepath.Join(tmp, "one.txt")
+			os.WriteFile(one, []byte(f+"\n"), 0o644)
+			r1 := exec.Command(bin, "-test.run", "^TestVerifReplay$", "-test.v", "-test.timeout", "600s")
+			r1.Dir = tmp
+			r1.Env = append(goEnv(), "VERIF_REPLAY_LIST="+one)
+			o1, _ := r1.CombinedOutput()
+			t1 := string(o1)
+			got := false
+			for _, line := range strings.Split(t1, "\n") {
+				if i := strings.Index(line, "NDRESULT "); i >= 0 {
+					var o replayOutcome
+					if err := json.Unmarshal([]byte(line[i+9:]), &o); err == nil {
+						outcomes[o.File] = o
+						got = true
+					}
+				}
+			}
+			if !got {
+				if i := strings.Index(t1, "fatal error: "); i >= 0 {
+					outcomes[f] = replayOutcome{File: f, Failed: []string{}, Panic: firstLines(t1[i:], 1) + " (the Go runtime ended the process)"}
+				}
+			}
+			txt += t1
+		}
+	}
+	if len(outcomes) != len(files) {
 		return outcomes, txt, fmt.Errorf("native replay produced %d of %d results", len(outcomes), len(files))
 	}
 	return outcomes, txt, nil
